@@ -53,6 +53,11 @@ def gen_case(rng, tier, i):
         for f in spec['fields'][1:]:
             f[1], f[2] = round(float(rng.uniform(0.05, 0.4)), 4), round(float(rng.uniform(0.05, 0.4)), 4)
         classes.append('vignetting-factors')
+    if len(spec['fields']) >= 3 and rng.random() < 0.4:
+        # fields added in non-ascending order (the order of the lens's field list is part of its state)
+        f = spec['fields']
+        spec['fields'] = [f[0], f[-1]] + f[1:-1]
+        classes.append('fields-not-ascending')
     r = rng.random()
     if r < 0.15:
         for s in spec['surfaces'][:-1]:
@@ -382,6 +387,14 @@ def tail_checks(case, rec, lens, spec, vig):
     lens.trace_generic(np.zeros(n + 3), np.full(n + 3, Hy), Pxx, Pyy, wl)
     comp = np.stack([sg.x, sg.y, sg.z, sg.L, sg.M, sg.N, sg.opd])[:, :, :n]
     cmp_batch('with lost companions', comp, full)
+    # in a crowd: the same rays together with 3000 easy near-axis rays (batch-wide convergence tests must not
+    # abandon the slow ones)
+    crowd = 3000
+    cx = np.concatenate([Px, 1e-3 * np.cos(np.linspace(0, 6.28, crowd))])
+    cy = np.concatenate([Py, 1e-3 * np.sin(np.linspace(0, 6.28, crowd))])
+    lens.trace_generic(np.zeros(n + crowd), np.concatenate([np.full(n, Hy), np.zeros(crowd)]), cx, cy, wl)
+    cr = np.stack([sg.x, sg.y, sg.z, sg.L, sg.M, sg.N, sg.opd])[:, :, :n]
+    cmp_batch('in a crowd of 3000 near-axis rays', cr, full)
     # after an unrelated trace
     lens.trace(0.0, 0.0, wl, 3, 'hexapolar')
     lens.paraxial.marginal_ray()
